@@ -1,0 +1,30 @@
+//go:build verif
+
+package statefulset
+
+import (
+	"k8s.io/client-go/util/workqueue"
+)
+
+// Hooks for the out-of-tree verification harness. This file only exists when
+// the build tag "verif" is set; it adds exported wrappers and changes nothing.
+
+// VerifSync runs one per-key reconcile synchronously.
+func (ssc *StatefulSetController) VerifSync(key string) error {
+	return ssc.sync(key)
+}
+
+// VerifProcessNextWorkItem runs one worker step.
+func (ssc *StatefulSetController) VerifProcessNextWorkItem() bool {
+	return ssc.processNextWorkItem()
+}
+
+// VerifQueue returns the controller's work queue.
+func (ssc *StatefulSetController) VerifQueue() workqueue.RateLimitingInterface {
+	return ssc.queue
+}
+
+// VerifSetQueue substitutes the controller's work queue.
+func (ssc *StatefulSetController) VerifSetQueue(q workqueue.RateLimitingInterface) {
+	ssc.queue = q
+}
